@@ -1201,6 +1201,43 @@ pub fn run_ml_build(cfg: &Config, s: &mut Session, rng: &mut Rng) {
     }
 }
 
+/// MarkBasePos with every anchor present and distinct, except that the base anchors of class `j` are
+/// the SAME objects as those of class `j - 1` (identical coordinates): if class `j` is where the size
+/// loop of `split_mark_to_base_subtable` cuts, its whole column was "visited" in the previous piece
+fn mb_shared_column(classes: usize, n_bases: usize, j: usize, also: &[usize]) -> MbP {
+    let mut next = 1u32;
+    let mut cells = vec![];
+    for _ in 0..n_bases {
+        let mut row: Vec<u32> = vec![];
+        for c in 0..classes {
+            if (c == j || also.contains(&c)) && c > 0 {
+                row.push(row[c - 1]);
+            } else {
+                row.push(next);
+                next += 1;
+            }
+        }
+        cells.push(row);
+    }
+    MbP {
+        name: format!("mb-shared-column{{classes={classes} bases={n_bases} class {j} (and {also:?}) share the anchors of the class before}}"),
+        classes,
+        marks: (0..classes).collect(),
+        n_bases,
+        cells,
+        mark_ids: (0..classes).map(|i| 500_000 + i as u32).collect(),
+        dev_from: u32::MAX,
+        heavy_from: u32::MAX,
+    }
+}
+
+pub fn run_mb_shared_search(s: &mut Session) {
+    for n_bases in (1300usize..1440).step_by(4) {
+        let sc = mb_shared_column(14, n_bases, 6, &[12, 13]);
+        mbp_case(s, &sc);
+    }
+}
+
 pub fn run(cfg: &Config, s: &mut Session, rng: &mut Rng) {
     let t = cfg.thorough();
     for _ in 0..(if t { 160 } else { 26 }) {
@@ -1215,4 +1252,8 @@ pub fn run(cfg: &Config, s: &mut Session, rng: &mut Rng) {
     }
     run_device(cfg, s, rng);
     run_ml_build(cfg, s, rng);
+    // known finding C16-markbase-stale-visited-at-split: the class at the split point shares its anchors with
+    // the previous piece (counted 0), two later classes share theirs legitimately: the second piece is
+    // under-estimated by a whole anchor column and cannot be packed
+    mbp_case(s, &mb_shared_column(14, 1312, 6, &[12, 13]));
 }
